@@ -119,7 +119,10 @@ ComScens(k) == IF k > Len(Hashers) THEN <<>>
 BmpDepths == <<0, 1, 7, 63, 64, 255>>
 BmpNodes(h) == <<<<>>, <<<<>>>>, <<DigList(h, 1, 1)>>, <<DigList(h, 2, 1), <<>>, DigList(h, 3, 2)>>,
                  [i \in 1..127 |-> <<>>], [i \in 1..128 |-> <<>>], <<DigList(h, 4, 127)>>, <<DigList(h, 5, 128), <<>>>>,
-                 [i \in 1..5 |-> DigList(h, 10 * i, i - 1)]>>
+                 [i \in 1..5 |-> DigList(h, 10 * i, i - 1)],
+                 \* many node vectors (one per opened sibling pair): counts around 256 and well above
+                 [i \in 1..255 |-> <<>>], [i \in 1..256 |-> <<>>], [i \in 1..257 |-> <<>>],
+                 [i \in 1..1000 |-> IF i % 100 = 0 THEN DigList(h, i, 1) ELSE <<>>]>>
 BmpN(h) == Len(BmpDepths) * Len(BmpNodes(h))
 BmpAt(h, i) == [depth |-> Pick(BmpDepths, i, 1), nodes |-> Pick(BmpNodes(h), i, Len(BmpDepths))]
 BmpScen(h, d) == [ty |-> "BatchMerkleProof", f |-> HashField(h), h |-> h, x |-> 1, d |-> d, exp |-> <<Lit(BmpBytes(h, d))>>]
